@@ -16,6 +16,11 @@ def check(run):
                 for closed in (False, True):
                     for limit in range(0, ml + 1):
                         plan.append(dict(op=op, cap=cap, fill=fill, closed=closed, limit=limit, pending=0))
+        for cap in (8, 12, 20, 40):        # more queued than the limit, limits around growth steps of the result slice
+            for limit in ((0, 1, 4, 5, 7, 8, 9, 11, 13, 17, 33, cap - 1, cap, cap + 1) if q else range(0, cap + 2)):
+                for fill in (cap, cap - 3):
+                    plan.append(dict(op=op, cap=cap, fill=fill, closed=False, limit=limit, pending=0))
+                    plan.append(dict(op=op, cap=cap, fill=fill, closed=True, limit=limit, pending=0))
         for cap in (0, 1, 2):
             for pending in (1, 2):
                 for limit in (0, 1, 2, 4):
